@@ -217,4 +217,145 @@ theorem secComment_ok (length : Int) (v : Bytes) (hv : noCR v = true) : SecOK le
     exact tryAll_liftF 7 (by omega) length f _ t o r _ rest (by simp [notNames, fieldNames, bs, List.isPrefixOf])
       (commentField 12) (by simp [fieldParsers]) (hr _)
 
+def secReference (x : Reference) : Section :=
+  ⟨refHead x ++ 10 :: subLinesText (presentLines x),
+   fun (f, t, o, r) => ({ f with references := f.references ++ [x] }, t, o, r), 1⟩
+
+theorem refHead_eq (x : Reference) :
+    ∃ tl, refHead x = bs "REFERENCE   " ++ tl := by
+  unfold refHead; split
+  · exact ⟨_, rfl⟩
+  · exact ⟨itoaB x.number ++ sp (3 - (itoaB x.number).length) ++ x.info, by simp [List.append_assoc]⟩
+
+theorem secReference_ok (length : Int) (x : Reference) (h : referenceOk x = true) : SecOK length (secReference x) := by
+  unfold secReference
+  obtain ⟨tl, htl⟩ := refHead_eq x
+  apply secOK_of_tryAll
+  · exact ⟨82, bs "EFERENCE   " ++ (tl ++ 10 :: subLinesText (presentLines x)), by rw [htl]; simp [bs], by decide⟩
+  · intro rest; rw [htl]; simp [startsField, refStop, refAltList, bs, List.isPrefixOf]; decide
+  · intro s rest hrest
+    obtain ⟨f, t, o, r⟩ := s
+    have e2 : refHead x ++ 10 :: subLinesText (presentLines x) ++ rest =
+        refHead x ++ 10 :: (subLinesText (presentLines x) ++ rest) := by simp [List.append_assoc]
+    rw [e2]
+    have hr := fun st => reference_roundtrip f x rest st h (startsField_refStop rest hrest)
+    refine tryAll_liftF 6 (by omega) length f _ t o r _ rest ?_ (referenceField 12) (by simp [fieldParsers]) (hr _)
+    rw [htl]; simp [notNames, fieldNames, bs, List.isPrefixOf]
+
+/-- the names an extra field must not start with: the eleven field names (their sub-parsers would
+claim the line) and the six REFERENCE sub-field names -/
+def reservedNames : List String := fieldNames ++ refNames
+
+/-- an extra field's name as written (`%-12s`) starts with none of the reserved names -/
+def extraNameOk (name : Bytes) : Bool := reservedNames.all fun n => !(bs n).isPrefixOf (padRight 12 name)
+
+theorem isPrefixOf_append_long (p a Y : Bytes) (h : p.length ≤ a.length) :
+    p.isPrefixOf (a ++ Y) = p.isPrefixOf a := by
+  induction p generalizing a with
+  | nil => simp
+  | cons x p ih =>
+    cases a with
+    | nil => simp at h
+    | cons y a =>
+      simp only [List.cons_append, List.isPrefixOf]
+      rw [ih a (by simp only [List.length_cons] at h; omega)]
+
+theorem reserved_lengths : ∀ n ∈ reservedNames, (bs n).length ≤ 12 := by decide
+
+def secExtra (name value : Bytes) : Section :=
+  ⟨extraText name value ++ [10], fun (f, t, o, r) => ({ f with extra := f.extra ++ [(name, value)] }, t, o, r), 1⟩
+
+theorem secExtra_ok (length : Int) (name value : Bytes) (hw : WritableExtra name value = true)
+    (hn : extraNameOk name = true) : SecOK length (secExtra name value) := by
+  unfold secExtra
+  have hw' := hw
+  simp only [WritableExtra, Bool.and_eq_true, Bool.not_eq_true', List.isEmpty_eq_false_iff] at hw'
+  obtain ⟨⟨⟨⟨hne, hup⟩, hlen⟩, _⟩, _⟩ := hw'
+  have hpl : 12 ≤ (padRight 12 name).length := by
+    simp only [padRight, List.length_append, sp_length]; omega
+  have hres : ∀ n ∈ reservedNames, ∀ Y, (bs n).isPrefixOf (extraText name value ++ Y) = false := by
+    intro n hnm Y
+    simp only [extraNameOk, List.all_eq_true, Bool.not_eq_true'] at hn
+    have := hn n hnm
+    simp only [extraText, List.append_assoc]
+    rw [isPrefixOf_append_long _ _ _ (by have := reserved_lengths n hnm; omega)]
+    exact this
+  obtain ⟨c, tl, hc⟩ : ∃ c tl, name = c :: tl := by
+    cases name with
+    | nil => exact absurd rfl hne
+    | cons c tl => exact ⟨c, tl, rfl⟩
+  have hcu : isUpper c = true := by
+    rw [hc] at hup; simp only [List.all_cons, Bool.and_eq_true] at hup; exact hup.1
+  have hnot : ∀ Y, notNames 11 (extraText name value ++ Y) = true := by
+    intro Y
+    simp only [notNames, List.all_eq_true, Bool.not_eq_true']
+    intro n hnm
+    exact hres n (by
+      have : fieldNames.take 11 = fieldNames := by decide
+      rw [this] at hnm
+      simp [reservedNames, hnm]) Y
+  apply secOK_of_tryAll
+  · exact ⟨c, tl ++ sp (12 - name.length) ++ addPrefix indent value ++ [10], by simp [extraText, padRight, hc, List.append_assoc], hcu⟩
+  · intro rest
+    simp only [startsField, Bool.and_eq_true, refStop, bne_iff_ne, ne_eq, List.all_eq_true, Bool.not_eq_true']
+    have e : extraText name value ++ [10] ++ rest = c :: (tl ++ sp (12 - name.length) ++ addPrefix indent value ++ [10] ++ rest) := by
+      simp [extraText, padRight, hc, List.append_assoc]
+    refine ⟨by rw [e]; simp [hcu], ?_, ?_⟩
+    · rw [e]; simpa using upper_ne_blank c hcu
+    · intro x hx
+      have hx' : x.1 ∈ reservedNames := by
+        have : refAltList.map (·.1) = refNames := by decide
+        simp only [reservedNames, List.mem_append]; right
+        rw [← this]; exact List.mem_map_of_mem hx
+      have := hres x.1 hx' ([10] ++ rest)
+      simpa [List.append_assoc] using this
+  · intro s rest hrest
+    obtain ⟨f, t, o, r⟩ := s
+    have e2 : extraText name value ++ [10] ++ rest = extraText name value ++ 10 :: rest := by simp [List.append_assoc]
+    rw [e2]
+    exact tryAll_extra length f t o r name value rest (hnot _) hw (startsField_not_sp 12 (by omega) rest hrest)
+
+/-- CONTIG: the field, then its line feed as an empty unknown line: two passes -/
+def secContig (g : Fields) : Section :=
+  ⟨bs "CONTIG      " ++ (contigText g ++ [10]),
+   fun (f, t, o, r) => ({ f with contigAcc := g.contigAcc, contigHead := g.contigHead, contigTail := g.contigTail }, t, o, r), 2⟩
+
+theorem secContig_ok (length : Int) (g : Fields) (h : contigOk g = true) : SecOK length (secContig g) := by
+  unfold secContig
+  refine ⟨?_, by simp [bs], ?_⟩
+  · intro rest; simp [startsField, refStop, refAltList, bs, List.isPrefixOf]; decide
+  · intro k s rest hrest
+    obtain ⟨f, t, o, r⟩ := s
+    obtain ⟨c, rr, hc, _⟩ := startsField_spec rest hrest
+    have e2 : bs "CONTIG      " ++ (contigText g ++ [10]) ++ rest = bs "CONTIG      " ++ (contigText g ++ 10 :: rest) := by
+      simp [List.append_assoc]
+    have e3 : bs "CONTIG      " ++ (contigText g ++ 10 :: rest) = 67 :: (bs "ONTIG      " ++ (contigText g ++ 10 :: rest)) := by
+      simp [bs]
+    have hr := fun st => contig_roundtrip f g (10 :: rest) st h
+    have ht := tryAll_liftF 9 (by omega) length f _ t o r (bs "CONTIG      " ++ (contigText g ++ 10 :: rest)) (10 :: rest)
+      (by simp [notNames, fieldNames, bs, List.isPrefixOf]) (contigField 12) (by simp [fieldParsers]) (hr _)
+    rw [e2, show k + 2 = (k + 1) + 1 by omega]
+    rw [e3] at ht ⊢
+    rw [loop_step length (k + 1) _ _ 67 _ (10 :: rest) (by decide) ht, hc, loop_blank]
+
+def secOrigin (p : Bytes) : Section :=
+  ⟨bs "ORIGIN      \n" ++ Origin.originStream p, fun (f, t, _, r) => (f, t, .buffer (Origin.originStream p), r), 1⟩
+
+theorem secOrigin_ok (p : Bytes) (hp : ∀ c ∈ p, Origin.isBase c = true) (hlen : p.length < 10 ^ 9) :
+    SecOK (p.length : Int) (secOrigin p) := by
+  unfold secOrigin
+  apply secOK_of_tryAll
+  · exact ⟨79, bs "RIGIN      \n" ++ Origin.originStream p, by simp [bs], by decide⟩
+  · intro rest; simp [startsField, refStop, refAltList, bs, List.isPrefixOf]; decide
+  · intro s rest hrest
+    obtain ⟨f, t, o, r⟩ := s
+    have e2 : bs "ORIGIN      \n" ++ Origin.originStream p ++ rest = bs "ORIGIN      \n" ++ (Origin.originStream p ++ rest) := by
+      simp [List.append_assoc]
+    rw [e2]
+    have hr := fun st => origin_roundtrip p rest st hp hlen (startsField_head rest hrest)
+    apply tryAll_at 10 (by omega) (p.length : Int) _ _ _ rest [] (by simp [notNames, fieldNames, bs, List.isPrefixOf])
+      (originSub (p.length : Int) 12) (by simp [fieldParsers])
+    · gsimp [originSub, hr]
+    · rfl
+
 end Gts.GenBank
